@@ -49,6 +49,21 @@ def gen_string(cls, rng, n):
         return "%024x" % (0x65f1a2b3c4d5e6f708192a3b + n)
     if cls == "bindata":
         return base64.b64encode(("bytes %d \x00\xff" % n).encode("latin-1")).decode()
+    if cls == "bindataLoose":
+        # payload text that a lenient base64 decoder accepts but that is not the canonical spelling of its bytes: non-zero padding bits, a line
+        # break inside / at the end (MIME style).  The property is about the *string* in the log, not about the bytes it may stand for.
+        alphabet = "ABCDEFGHIJKLMNOPQRSTUVWXYZabcdefghijklmnopqrstuvwxyz0123456789+/"
+        raw = ("b%d" % n).encode() + bytes(rng.randrange(256) for _ in range(rng.choice([1, 2, 4, 5, 10, 11])))
+        t = base64.b64encode(raw).decode()
+        how = n % 3
+        if how == 0 and t.endswith("="):
+            i = len(t.rstrip("=")) - 1
+            t = t[:i] + alphabet[alphabet.index(t[i]) | 1] + t[i + 1:]
+        elif how == 1:
+            t = t[:4] + "\n" + t[4:]
+        else:
+            t = t[:8] + "\r\n" + t[8:] + "\n"
+        return t
     raise ValueError(cls)
 
 
@@ -60,7 +75,7 @@ def wrap(cls, s):
         return {"$date": s}, ("$date",)
     if cls == "oid":
         return {"$oid": s}, ("$oid",)
-    if cls == "bindata":
+    if cls in ("bindata", "bindataLoose"):
         return {"$binary": {"base64": s, "subType": "00"}}, ("$binary", "base64")
     return s, ()
 
@@ -200,6 +215,60 @@ def axioms(b, v, tier, seed):
     return n
 
 
+def volume(b, v, tier, wd, key):
+    """One run over many lines: thousands of distinct sensitive values, each early value recurring late in the run (and a few values recurring
+    all the time); every ciphertext of the real output goes through the real Decrypt and must give the string at the same position of the input."""
+    ndistinct = 6000 if tier == "quick" else 60000
+    rng = random.Random(v.seed * 13 + 5)
+    texts = ["customer-%05d %s" % (i, "é" * (i % 3)) for i in range(ndistinct)]
+    order = list(range(ndistinct))
+    # recurrences: the first values again after everything else, and hot values sprinkled throughout
+    order += list(range(0, 600)) + [rng.randrange(ndistinct) for _ in range(1500)]
+    for j in range(0, len(order), 37):
+        order.insert(j, j % 5)
+    slots = ("filterField", "inArray", "documents", "match", "updateSet")
+    lines, want = [], []
+    for n, ti in enumerate(order):
+        line, path = line_for(slots[n % len(slots)], texts[ti], 500000 + n)
+        lines.append(json.dumps(line, ensure_ascii=False, separators=(",", ":")))
+        want.append((path, texts[ti]))
+    inp, outp = os.path.join(wd, "vol.log"), os.path.join(wd, "vol.out")
+    open(inp, "w", encoding="utf-8").write("\n".join(lines) + "\n")
+    p = common.run_cli(b, ["redact", inp, "-o", outp, "--encrypt", "-q", key], cwd=wd)
+    if p.returncode != 0:
+        raise common.Infra("redact --encrypt failed on the volume input: %s" % p.stderr.decode()[:300])
+    outl = [l for l in open(outp, encoding="utf-8").read().split("\n") if l]
+    if len(outl) != len(lines):
+        v.violation("the --encrypt output of a long log does not have one line per input line", {"input_lines": len(lines), "output_lines": len(outl)})
+        return 0
+    kb64 = open(key).read().strip()
+    reqs, meta = [], []
+    for n, (l, (path, text)) in enumerate(zip(outl, want)):
+        node = jsonx.get(jsonx.parse(l), path)
+        if node is None or node[0] != 'str':
+            v.violation("the encrypted leaf of a long log is not a string", {"line_no": n, "line": l[:600]})
+            continue
+        try:
+            raw = base64.b64decode(node[1], validate=True)
+        except Exception:
+            v.violation("the encrypted leaf is not base64 text (long log)", {"line_no": n, "leaf": node[1][:200]})
+            continue
+        reqs.append({"op": "dec", "key_b64": kb64, "data_b64": common.b64(raw)})
+        meta.append((n, text, node[1]))
+    ans = common.run_inproc(b, [{"op": "crypto", "args": reqs}])[0]["result"]
+    bad = 0
+    for a, (n, text, ct) in zip(ans, meta):
+        v.count()
+        got = common.unb64(a["data_b64"]).decode("utf-8", "replace") if a.get("ok") else None
+        if got != text:
+            bad += 1
+            if bad <= 3:
+                v.violation("in a long log a ciphertext does not decrypt to the string it replaced (value first seen %s)" % ("much earlier in the run" if n > ndistinct else "here"),
+                            {"line_no": n, "original": text, "decrypts_to": got, "ciphertext": ct[:120], "distinct_values_in_run": ndistinct})
+    v.nontrivial(("volume", ndistinct))
+    return len(meta)
+
+
 def run(tier):
     v = common.Verdict(PID, tier, "fault_enumeration")
     b = common.build()
@@ -324,14 +393,15 @@ def run(tier):
             elif marker in so:
                 v.violation("decrypt with %s prints a plaintext" % what, rep)
     nax = axioms(b, v, tier, v.seed)
+    nvol = volume(b, v, tier, wd, k1)
     shutil.rmtree(wd, ignore_errors=True)
     v.cov.update({"states": t.distinct, "transitions": t.generated, "scenarios_in_model": len(scen), "scenarios_replayed_end_to_end": n_e2e,
-                  "function_level_axiom_evaluations": nax, "classes": sorted(set(s["cls"] for s in scen)), "positions": sorted(set(s["slot"] for s in scen)),
+                  "function_level_axiom_evaluations": nax, "long_log_ciphertexts_decrypted": nvol, "classes": sorted(set(s["cls"] for s in scen)), "positions": sorted(set(s["slot"] for s in scen)),
                   "alterations": sorted(set(s["alt"] for s in scen)), "faults_enumerated": len([s for s in scen if not s["ok"]]),
-                  "rule": "model: 16 leaf classes x 13 positions x {same, other key} x 11 alterations; replay: all round-trip scenarios with several generated strings each "
+                  "rule": "model: 17 leaf classes x 13 positions x {same, other key} x 11 alterations; replay: all round-trip scenarios with several generated strings each "
                           "and (quick) a covering ninth of the failing scenarios / (thorough) all of them, end to end: `redact --encrypt` with a fresh key file, the "
                           "ciphertext taken from the exact leaf position, altered, handed to `decrypt`; verdict: exit 0 and `Raw value: <original>` byte for byte, or "
-                          "exit != 0 and no `Raw value:`; axioms: round trip, wrong key, every single-bit flip (quick: 2 bits per byte) and truncation of sample "
+                          "exit != 0 and no `Raw value:`; one long log (6000, thorough 60000, distinct values, early values recurring late) with every ciphertext decrypted; axioms: round trip, wrong key, every single-bit flip (quick: 2 bits per byte) and truncation of sample "
                           "ciphertexts against the real functions",
                   "trusted_base": ["TLC", "lib/jsonx.py", "harness/inproc crypto op", "the cipher axioms (tested, not proved)"]})
     v.assumptions.append("the cryptographic strength of AES-SIV is not decided by TLA+: the DAEAD axioms are stated in spec/Crypto.tla and tested on the real functions")
